@@ -314,6 +314,15 @@ class C20(Check):
         ]}
         for mode in (["lo", 0.0], ["hi", 0.0], ["lo+1", 0.0], ["hi-1", 0.0]):
             yield {"schema": lt, "n": 2, "mode": "tape", "tape": [mode], "seed": 0, "parsed": False}
+        # type names that are fragments of the primitive type names, used by reference (null namespace and namespaced)
+        for names in (["e", "f", "t"], ["at", "do", "lo"], ["oat", "ub", "in"], ["ns.e", "ns.f", "ns.t"], ["ng", "ull", "ri"], ["yt", "oo", "boolea"]):
+            en, fx, rc = names
+            frag = {"type": "record", "name": "Frag", "fields": [
+                {"name": "a", "type": {"type": "enum", "name": en, "symbols": ["X", "Y"]}}, {"name": "b", "type": {"type": "fixed", "name": fx, "size": 3}},
+                {"name": "c", "type": {"type": "record", "name": rc, "fields": [{"name": "v", "type": "int"}, {"name": "again", "type": ["null", en]}]}},
+                {"name": "a2", "type": en}, {"name": "b2", "type": {"type": "array", "items": fx}}, {"name": "c2", "type": {"type": "map", "values": rc}}]}
+            for seed in (0, 1):
+                yield {"schema": frag, "n": 3, "mode": "seed", "tape": [], "seed": seed, "parsed": bool(seed)}
         ll = {"type": "record", "name": "LL", "fields": [{"name": "v", "type": "long"}, {"name": "next", "type": ["null", "LL"]}]}
         for seed in range(5):
             yield {"schema": ll, "n": 3, "mode": "seed", "tape": [], "seed": seed, "parsed": seed % 2 == 0}
